@@ -13,6 +13,7 @@ pub mod c04;
 pub mod c11;
 pub mod c12;
 pub mod texts;
+pub mod witness;
 pub mod explore;
 pub mod c05;
 pub mod c06;
@@ -247,6 +248,18 @@ impl<'a> Acc<'a> {
         r
     }
 
+    /// Replays the witnesses of the findings recorded for this property (in a worker process).
+    pub fn witnesses(&mut self) {
+        let wl = witness::Witnesses { check: self.ctx.id.clone() };
+        if crate::pool::Workload::len(&wl) > 0 {
+            let name = format!("witness:{}", self.ctx.id);
+            let evals = self.evaluations;
+            self.pool(&wl, &name, true);
+            // witnesses are not part of the exploration counts
+            self.evaluations = evals;
+        }
+    }
+
     /// Writes the evidence file, prints the verdict lines and returns the exit code.
     #[allow(clippy::too_many_arguments)]
     pub fn finish(
@@ -350,6 +363,9 @@ impl<'a> Acc<'a> {
 /// Registry of workloads by name (used by both coordinator and workers).
 pub fn workload(name: &str, tier: &str) -> Option<Box<dyn Workload>> {
     let quick = tier == "quick";
+    if let Some(c) = name.strip_prefix("witness:") {
+        return Some(Box::new(witness::Witnesses { check: c.to_owned() }));
+    }
     match name {
         "c16" => Some(Box::new(c16::Positions::new(quick))),
         "c13" => Some(Box::new(c13::Workspaces {
